@@ -26,12 +26,16 @@ class Seg:
         self.spec = spec
 
     def __len__(self):
-        return len(self.text) if self.kind == 'lit' else self.width
+        if self.kind == 'lit':
+            return len(self.text)
+        if self.width is None:
+            raise Unsupported('length of a printed value whose width is not known: %r' % (self.value,))
+        return self.width
 
     def __repr__(self):
         if self.kind == 'lit':
             return repr(self.text)
-        return '<%s:%s w=%d>' % (self.cls, self.value if not hasattr(self.value, 'key') else repr(self.value),
+        return '<%s:%s w=%s>' % (self.cls, self.value if not hasattr(self.value, 'key') else repr(self.value),
                                  self.width)
 
 
@@ -56,7 +60,7 @@ class SegStr:
             if self.segs and self.segs[-1].kind == 'lit':
                 self.segs[-1] = Seg('lit', text=self.segs[-1].text + s.text)
                 return
-        elif s.width == 0:
+        elif s.width == 0 and s.width is not None:
             return
         self.segs.append(s)
 
